@@ -80,7 +80,7 @@ def run(p, led, tier):
     FS = p.cls("FoldingStrategy", CH)
     if [n for n, _ in FS.enum_members()] != STRATS and set(n for n, _ in FS.enum_members()) != set(STRATS):
         raise AnchorError(f"FoldingStrategy members changed: {[n for n, _ in FS.enum_members()]}")
-    for m in ("fold", "fold_enhanced", "_attempt_fold", "_attempt_fold_enhanced"):
+    for m in ("fold", "fold_enhanced"):
         if p.find_method(chap, m) is None:
             raise AnchorError(f"Chaperone.{m} not found")
     led.explanation = (
@@ -102,8 +102,65 @@ def run(p, led, tier):
     led.rule("C11-R4", "plain and enhanced twins agree on validity and structure for every strategy; dispatchers pair them", 5)
     led.rule("C11-R5", "confidence ∈ [0,1], equal to 1.0 only for STRICT; total failure has confidence 0.0", 4)
     led.rule("C11-R6", "no strategy outcome (valid, invalid, raising) makes fold / fold_enhanced raise; the result mirrors the first valid attempt", 2)
-    att = p.find_method(chap, "_attempt_fold")
-    atte = p.find_method(chap, "_attempt_fold_enhanced")
+    # dispatchers by role: the method each public entry point hands (raw, schema, strategy) to
+    def dispatcher_of(entry):
+        e = p.find_method(chap, entry)
+        cands = []
+        for n in walk_no_nested(e.node):
+            if isinstance(n, ast.Call):
+                for g in res.resolve_call(e, n):
+                    if g.cls is chap and g is not e and any("strategy" in a.lower() or (x.annotation is not None and "FoldingStrategy" in src(x.annotation))
+                                                            for a, x in ((x.arg, x) for x in g.node.args.args)) and len([a for a in g.params() if a != "self"]) >= 3:
+                        cands.append(g)
+        uniq = {g.key: g for g in cands}
+        if len(uniq) > 1:
+            # the dispatcher is the one that reaches the schema validation
+            def validates(g):
+                return any(isinstance(c, ast.Call) and isinstance(c.func, ast.Attribute) and c.func.attr == "model_validate" for h in res.reachable_from(g) for c in ast.walk(h.node))
+            uniq = {k: g for k, g in uniq.items() if validates(g)}
+        if len(uniq) != 1:
+            raise AnchorError(f"Chaperone.{entry}: expected one per-strategy dispatcher, found {[g.qual for g in uniq.values()]}")
+        return next(iter(uniq.values()))
+    att = dispatcher_of("fold")
+    atte = dispatcher_of("fold_enhanced")
+
+    def implementations(fn):
+        """{strategy: implementing method} — every two-argument (raw, schema) method the dispatcher can reach is stubbed to
+        return its own name, and the dispatcher is interpreted per strategy"""
+        def takes_raw_and_schema(g):
+            ps = [a for a in g.node.args.args if a.arg != "self"]
+            return len(ps) == 2 and ps[0].annotation is not None and src(ps[0].annotation) == "str"
+        # every (raw: str, schema) method of the class is a possible implementation (the dispatch may go through a
+        # computed table the resolver cannot follow); the public entry points and the dispatchers are not
+        cands = [g for g in chap.methods.values() if g is not fn and g not in (att, atte) and g.name not in ("fold", "fold_enhanced") and takes_raw_and_schema(g)]
+
+        def disp(o):
+            it = Interp(p, o)
+            c = it.instantiate(chap, [], dict(silent=True))
+            for g in cands:
+                it.stubs[g.qual] = (lambda nm_: (lambda interp, args, kwargs: nm_))(g.name)
+            out = {}
+            for s_ in STRATS:
+                try:
+                    out[s_] = it.call_fi(fn, [c, Unknown("raw"), Unknown("schema"), it.enum_member(FS, s_)], {})
+                except PyRaise as e:
+                    out[s_] = f"raises {e.exc!r}"
+            return out
+        outs = [r for _, r in explore(disp)]
+        m = {}
+        for o_ in outs:
+            for k, v in o_.items():
+                m.setdefault(k, set()).add(v if isinstance(v, str) else repr(v))
+        return m, {g.name: g for g in cands}
+    impl_plain, cand_plain = implementations(att)
+    impl_enh, cand_enh = implementations(atte)
+
+    def impl_fn(strat, enhanced=False):
+        m, c = (impl_enh, cand_enh) if enhanced else (impl_plain, cand_plain)
+        names = m.get(strat, set())
+        if len(names) == 1 and next(iter(names)) in c:
+            return c[next(iter(names))]
+        return None
 
     def one(o, strat, n_coerce, extreme=False):
         it = Interp(p, o)
@@ -187,7 +244,7 @@ def run(p, led, tier):
                     b3.append(f"STRICT success reported with confidence {cf!r}")
                 if en["strat"] not in (strat, "None"):
                     b4.append(f"enhanced result labelled {en['strat']} for strategy {strat}")
-        fn = p.find_method(chap, {"STRICT": "_fold_strict", "EXTRACTION": "_fold_extraction", "LENIENT": "_fold_lenient", "REPAIR": "_fold_repair"}[strat]) or att
+        fn = impl_fn(strat) or att
         for rule, bad, okmsg in (("C11-R1", b1, "valid ⇒ validated JSON derived from the raw text"), ("C11-R2", b2, "invalid ⇒ no structure, error trace present"),
                                  ("C11-R4", b4, "twins agree on validity and structure"), ("C11-R5", b5, "confidence in range; 1.0 iff STRICT")):
             key = f"strategy {strat} ▸ {okmsg.split(' ⇒')[0] if '⇒' in okmsg else okmsg}"
@@ -201,41 +258,41 @@ def run(p, led, tier):
                 led.fail("C11-R3", key, where(fn, fn.node), b3[0])
             else:
                 led.ok("C11-R3", key, where(fn, fn.node), "validates exactly json.loads(raw.strip()); confidence 1.0")
-    # dispatchers
-    for fn in (att, atte):
-        def disp(o):
-            it = Interp(p, o)
-            c = it.instantiate(chap, [], dict(silent=True))
-            called = {}
-            for s_, base in (("STRICT", "_fold_strict"), ("EXTRACTION", "_fold_extraction"), ("LENIENT", "_fold_lenient"), ("REPAIR", "_fold_repair")):
-                for suffix in ("", "_enhanced"):
-                    it.stubs[f"Chaperone.{base}{suffix}"] = (lambda nm_: (lambda interp, args, kwargs: nm_))(f"{base}{suffix}")
-            return {s_: it.call_fi(fn, [c, Unknown("raw"), Unknown("schema"), it.enum_member(FS, s_)], {}) for s_ in STRATS}
-        outs = [r for _, r in explore(disp)]
-        want = {"STRICT": "_fold_strict", "EXTRACTION": "_fold_extraction", "LENIENT": "_fold_lenient", "REPAIR": "_fold_repair"}
-        suffix = "_enhanced" if fn is atte else ""
+    # dispatchers: each strategy reaches exactly one implementation, different strategies different ones, and the
+    # enhanced dispatcher pairs each strategy with a twin of its own
+    for fn, m, enhanced in ((att, impl_plain, False), (atte, impl_enh, True)):
         key = f"{fn.qual} ▸ strategy → implementation"
-        badd = [f"{k} → {v}" for o_ in outs for k, v in o_.items() if v != want[k] + suffix]
-        if badd:
-            led.fail("C11-R4", key, where(fn, fn.node), f"dispatcher maps {badd[0]}")
+        probs = []
+        for s_ in STRATS:
+            if impl_fn(s_, enhanced) is None:
+                probs.append(f"{s_} → {sorted(m.get(s_, []))}")
+        impls = [impl_fn(s_, enhanced) for s_ in STRATS]
+        if not probs and len({g.key for g in impls}) != len(STRATS):
+            probs.append(f"two strategies share one implementation: { {s_: impl_fn(s_, enhanced).name for s_ in STRATS} }")
+        if probs:
+            led.fail("C11-R4", key, where(fn, fn.node), f"dispatcher maps {probs[0]}")
         else:
-            led.ok("C11-R4", key, where(fn, fn.node), "each strategy reaches its own implementation" + (" (enhanced twin)" if suffix else ""))
+            led.ok("C11-R4", key, where(fn, fn.node), "each strategy reaches its own implementation: " + ", ".join(f"{s_}→{impl_fn(s_, enhanced).name}" for s_ in STRATS))
 
     # sibling cross-check: each twin pair iterates the same tables with the same regex function and flags, and catches the same exceptions
     from ..loader import dotted as _dotted, is_self_attr as _isa
-    def shape(f):
-        tabs = sorted({n.iter.attr for n in walk_no_nested(f.node) if isinstance(n, ast.For) and _isa(n.iter)})
-        rex = sorted({(_dotted(c.func), " ".join(src(a) for a in c.args[3:]) + " ".join(f"{k.arg}={src(k.value)}" for k in c.keywords)) for c in walk_no_nested(f.node)
-                      if isinstance(c, ast.Call) and (_dotted(c.func) or "").startswith("re.")})
-        exc = sorted({src(h.type) if h.type is not None else "bare" for n in walk_no_nested(f.node) if isinstance(n, ast.Try) for h in n.handlers})
-        helpers = sorted({c.func.attr for c in walk_no_nested(f.node) if isinstance(c, ast.Call) and _isa(c.func) and c.func.attr.startswith("_extract")})
-        return dict(tables=tabs, regex=rex, handlers=exc, helpers=helpers)
-    for base in ("_fold_strict", "_fold_extraction", "_fold_lenient", "_fold_repair"):
-        a_, b_ = p.find_method(chap, base), p.find_method(chap, base + "_enhanced")
+
+    def shape(f, depth=0):
+        fs = [f] + [g for g in res.reachable_from(f) if g.cls is chap and g is not f and g not in (att, atte) and g.name not in ("fold", "fold_enhanced")
+                    and len([a for a in g.params() if a != "self"]) <= 2 and not any(g is impl_fn(s_, e_) for s_ in STRATS for e_ in (False, True))]
+        tabs, rex, exc = set(), set(), set()
+        for h in fs:
+            tabs |= {n.iter.attr for n in walk_no_nested(h.node) if isinstance(n, ast.For) and _isa(n.iter)}
+            rex |= {(_dotted(c.func), " ".join(src(a) for a in c.args[3:]) + " ".join(f"{k.arg}={src(k.value)}" for k in c.keywords)) for c in walk_no_nested(h.node)
+                    if isinstance(c, ast.Call) and (_dotted(c.func) or "").startswith("re.")}
+        exc = {src(h_.type) if h_.type is not None else "bare" for n in walk_no_nested(f.node) if isinstance(n, ast.Try) for h_ in n.handlers}
+        return dict(tables=sorted(tabs), regex=sorted(rex), handlers=sorted(exc))
+    for s_ in STRATS:
+        a_, b_ = impl_fn(s_), impl_fn(s_, True)
         if a_ is None or b_ is None:
-            raise AnchorError(f"Chaperone.{base}[_enhanced] not found")
+            continue
         sa, sb = shape(a_), shape(b_)
-        key = f"Chaperone.{base} ▸ twin shape (tables, regex calls, handlers)"
+        key = f"strategy {s_} ▸ twin shape ({a_.name} / {b_.name}: tables, regex calls, handlers)"
         diff = [k for k in sa if sa[k] != sb[k]]
         if diff:
             led.fail("C11-R4", key, where(b_, b_.node), f"plain and enhanced differ in {diff}: plain {[sa[k] for k in diff]} vs enhanced {[sb[k] for k in diff]}")
@@ -245,7 +302,7 @@ def run(p, led, tier):
     # ---------------- R6 + cascade behaviour of fold / fold_enhanced
     FP = p.cls("FoldedProtein", "operon_ai/core/types.py")
     EFP = p.cls("EnhancedFoldedProtein", CH)
-    for fname, inner, rcls in (("fold", "Chaperone._attempt_fold", FP), ("fold_enhanced", "Chaperone._attempt_fold_enhanced", EFP)):
+    for fname, inner, rcls in (("fold", att.qual, FP), ("fold_enhanced", atte.qual, EFP)):
         f = p.find_method(chap, fname)
 
         def casc(o):
@@ -294,7 +351,7 @@ def run(p, led, tier):
         else:
             led.ok("C11-R6", key, where(f, f.node), "never raises; first valid attempt wins and stops the cascade; otherwise invalid with error trace" + (" and confidence 0.0" if rcls is EFP else ""))
     # a result is validated against the schema of *this* call: two different schemas that share module and name, same text
-    for fname, inner, rcls in (("fold", "Chaperone._attempt_fold", FP), ("fold_enhanced", "Chaperone._attempt_fold_enhanced", EFP)):
+    for fname, inner, rcls in (("fold", att.qual, FP), ("fold_enhanced", atte.qual, EFP)):
         f = p.find_method(chap, fname)
 
         def two(o):
